@@ -498,8 +498,8 @@ func (r *resolver) callResult(call *ssa.Call, ridx int, path []int, fr *frame, d
 			continue
 		}
 		nf := &frame{site: call, callee: f, parent: fr}
-		for _, b := range f.Blocks {
-			if ret, ok := b.Instrs[len(b.Instrs)-1].(*ssa.Return); ok && ridx < len(ret.Results) {
+		for _, ret := range returnsOf(f) {
+			if ridx < len(ret.Results) {
 				out.add(r.res(ret.Results[ridx], path, nf, depth+1))
 			}
 		}
